@@ -25,7 +25,7 @@ def run(ctx, res):
                 "late replies after timeouts and cancels. Compared per step: observations, cache, reactor.getDelayedCalls() vs the model's queue. "
                 "non-trivial = a scenario in which the clock advanced and at least one broker request was cancelled (timeout or cancel); distinct by content hash.")
     c07.run_corpus(ctx, res, ["c11-", "net-"], "c11", "C11")
-    c07.net_scenarios(ctx, res, ctx.scale(2500, 60000), "c11")
+    c07.net_scenarios(ctx, res, ctx.scale(2500, 200000), "c11")
 
 
 def search(ctx, res, broken):
